@@ -57,6 +57,21 @@ impl<K, V> OrderedQueue<K, V> {
             return Err(Error::Stale { key, value });
         }
 
+        // Merge with (or conflict against) an entry that is already buffered. This needs no room,
+        // so it must come before the eviction: otherwise a duplicate of the last key is refused as
+        // `Full`, and an entry evicted for an insert that then conflicts is dropped unanswered.
+        if let Some(existing) = self.map.get_mut(&key) {
+            if value.key_eq(existing) {
+                existing.merge(value);
+                return Ok(InsertResult {
+                    next: None,
+                    merged_with_existing: true,
+                    evicted: None,
+                });
+            }
+            return Err(Error::Conflict { value });
+        }
+
         // Evict a record if we're full
         let mut evicted = None;
         if self.map.len() >= self.limit {
@@ -68,29 +83,12 @@ impl<K, V> OrderedQueue<K, V> {
             }
         }
 
-        // Insert or merge
-        match self.map.entry(key) {
-            Entry::Vacant(entry) => {
-                entry.insert(value);
-                Ok(InsertResult {
-                    next: None,
-                    merged_with_existing: false,
-                    evicted,
-                })
-            }
-            Entry::Occupied(mut entry) => {
-                if value.key_eq(entry.get()) {
-                    entry.get_mut().merge(value);
-                    Ok(InsertResult {
-                        next: None,
-                        merged_with_existing: true,
-                        evicted,
-                    })
-                } else {
-                    Err(Error::Conflict { value })
-                }
-            }
-        }
+        self.map.insert(key, value);
+        Ok(InsertResult {
+            next: None,
+            merged_with_existing: false,
+            evicted,
+        })
     }
 
     pub fn pop(&mut self) -> Option<V>
